@@ -87,12 +87,17 @@ func sortOperandDesc(v ssa.Value) string {
 		switch x := v.(type) {
 		case *ssa.Parameter:
 			if curWorld != nil && x.Parent().Parent() == nil && curWorld.isNewFn(x.Parent()) {
+				bound := false
 				for _, o := range curWorld.originValues(x) {
 					if o != v {
+						bound = true
 						walk(o, depth+1)
 					}
 				}
-				return
+				if bound {
+					return
+				}
+				// never called directly (registered as a value): its parameter is an input
 			}
 			parts["param <"+short(x.Type().String())+">"] = true
 		case *ssa.FreeVar:
